@@ -247,6 +247,10 @@ class workq:
             job.serial = self.count
 
         if job.jobid is None:
+            # a number that a client chose as the id of its job is not handed out again
+            while job.serial in self.id2job:
+                self.count += 1
+                job.serial = self.count
             job.jobid = job.serial
         self.id2job[job.jobid] = job
 
